@@ -7,9 +7,11 @@ import (
 	"io"
 	"os"
 	"os/exec"
+	"os/signal"
 	"runtime"
 	"strings"
 	"sync"
+	"syscall"
 	"time"
 )
 
@@ -20,11 +22,12 @@ type wReq struct {
 	ID   int               `json:"id"`
 	Op   string            `json:"op"`
 	Args map[string]string `json:"args"`
+	Tmo  int64             `json:"tmo,omitempty"` // the parent's deadline for this request in ms (0 = none)
 }
 
 type wRes struct {
 	ID    int    `json:"id"`
-	Class string `json:"class"` // ok | err | panic (recovered) ; exit / oom / timeout are assigned by the parent
+	Class string `json:"class"` // ok | err | panic (recovered) ; exit / oom / timeout / not-run are assigned by the parent
 	Out   string `json:"out"`
 	Alloc uint64 `json:"alloc"` // runtime.MemStats.TotalAlloc delta
 	Ms    int64  `json:"ms"`
@@ -34,24 +37,51 @@ type wRes struct {
 
 var workerOps = map[string]func(args map[string]string) (class, out string){}
 
+// workerGrace is how long a worker outlives the end of its input or the deadline of a request.
+const workerGrace = 2 * time.Second
+
+// workerMain never outlives its parent: requests are read by a goroutine of their own, so the end of
+// stdin (the parent closed the pipe, exited or was killed - the kernel closes the pipe of a dead
+// process) is seen even while an operation spins, and ends this process after a short grace period.
+// A request that carries a deadline also arms a timer that ends the process should the parent not
+// have killed it by then. Either way a hanging operation cannot leave an orphan that burns CPU.
 func workerMain(args []string) {
 	in := bufio.NewReaderSize(os.Stdin, 1<<22)
 	out := bufio.NewWriter(os.Stdout)
-	for {
-		line, err := in.ReadBytes('\n')
-		if len(line) > 0 {
-			var req wReq
-			if json.Unmarshal(line, &req) == nil {
-				res := runWorkerOp(req)
-				b, _ := json.Marshal(res)
-				out.Write(b)
-				out.WriteByte('\n')
-				out.Flush()
+	lines := make(chan []byte)
+	go func() {
+		for {
+			line, err := in.ReadBytes('\n')
+			if len(line) > 0 {
+				lines <- line
+			}
+			if err != nil {
+				close(lines)
+				time.Sleep(workerGrace) // an idle worker has returned from workerMain long before
+				os.Exit(0)
 			}
 		}
-		if err != nil {
-			return
+	}()
+	for line := range lines {
+		var req wReq
+		if json.Unmarshal(line, &req) != nil {
+			continue
 		}
+		var deadline *time.Timer
+		if req.Tmo > 0 {
+			deadline = time.AfterFunc(time.Duration(req.Tmo)*time.Millisecond+workerGrace, func() {
+				fmt.Fprintf(os.Stderr, "worker: %s still running %v after its deadline of %d ms, giving up\n", req.Op, workerGrace, req.Tmo)
+				os.Exit(4)
+			})
+		}
+		res := runWorkerOp(req)
+		if deadline != nil {
+			deadline.Stop()
+		}
+		b, _ := json.Marshal(res)
+		out.Write(b)
+		out.WriteByte('\n')
+		out.Flush()
 	}
 }
 
@@ -93,6 +123,70 @@ type Worker struct {
 	n        int
 	mu       sync.Mutex
 	startCmd func() *exec.Cmd // overrides the default (this binary under ulimit -v)
+	// MaxTimeouts > 0 bounds the time a run can lose to operations that hang: once that many requests
+	// have timed out the worker is not started again and every further request is answered at once
+	// with class "not-run". The timeouts themselves are reported by the caller; a run in which every
+	// input hangs so ends after MaxTimeouts x timeout instead of (number of inputs) x timeout.
+	MaxTimeouts int
+	timeouts    int
+}
+
+// Tripped says whether the worker has stopped taking requests (see MaxTimeouts).
+func (w *Worker) Tripped() bool {
+	w.mu.Lock()
+	defer w.mu.Unlock()
+	return w.MaxTimeouts > 0 && w.timeouts >= w.MaxTimeouts
+}
+
+// every running worker process, so that they can be killed when this process is told to end
+var liveWorkers = struct {
+	sync.Mutex
+	m map[*exec.Cmd]bool
+}{m: map[*exec.Cmd]bool{}}
+
+func killLiveWorkers() {
+	liveWorkers.Lock()
+	for cmd := range liveWorkers.m {
+		if cmd.Process != nil {
+			cmd.Process.Kill()
+		}
+	}
+	liveWorkers.Unlock()
+}
+
+var guardOnce sync.Once
+
+// guardWorkers makes sure no worker survives this process. A worker ends by itself when its stdin
+// closes (which covers SIGKILL of this process); on SIGINT/SIGTERM/SIGHUP, and when the process that
+// started this one goes away (the check script was killed: nobody is left to read the result), the
+// workers are killed at once and this process ends abnormally.
+func guardWorkers() {
+	guardOnce.Do(func() {
+		sig := make(chan os.Signal, 1)
+		for _, sg := range []os.Signal{os.Interrupt, syscall.SIGTERM, syscall.SIGHUP} {
+			if !signal.Ignored(sg) { // (a run under nohup keeps ignoring SIGHUP)
+				signal.Notify(sig, sg)
+			}
+		}
+		ppid := os.Getppid()
+		go func() {
+			tick := time.NewTicker(500 * time.Millisecond)
+			for {
+				select {
+				case s := <-sig:
+					killLiveWorkers()
+					fmt.Fprintf(os.Stderr, "vcheck: %v: workers killed\n", s)
+					os.Exit(3)
+				case <-tick.C:
+					if ppid > 1 && os.Getppid() != ppid {
+						killLiveWorkers()
+						fmt.Fprintln(os.Stderr, "vcheck: the parent process is gone: workers killed")
+						os.Exit(3)
+					}
+				}
+			}
+		}()
+	})
 }
 
 type tailBuf struct {
@@ -136,6 +230,7 @@ func (c *Ctx) NewWorker(memKB int64, env ...string) *Worker {
 }
 
 func (w *Worker) start() {
+	guardWorkers()
 	if w.startCmd != nil {
 		w.cmd = w.startCmd()
 	} else {
@@ -149,21 +244,39 @@ func (w *Worker) start() {
 	w.out = bufio.NewReaderSize(o, 1<<22)
 	w.stderr = &tailBuf{}
 	w.cmd.Stderr = w.stderr
-	w.cmd.Start()
+	if w.cmd.Start() == nil {
+		liveWorkers.Lock()
+		liveWorkers.m[w.cmd] = true
+		liveWorkers.Unlock()
+	}
+}
+
+// reap waits for the (dead or killed) worker process and forgets it.
+func (w *Worker) reap() {
+	w.cmd.Wait()
+	liveWorkers.Lock()
+	delete(liveWorkers.m, w.cmd)
+	liveWorkers.Unlock()
 }
 
 func (w *Worker) Close() {
+	w.mu.Lock()
+	defer w.mu.Unlock()
 	if w.in != nil {
 		w.in.Close()
+		w.in = nil
 	}
 	if w.cmd != nil {
 		done := make(chan struct{})
-		go func() { w.cmd.Wait(); close(done) }()
+		cmd := w.cmd
+		go func() { w.reap(); close(done) }()
 		select {
 		case <-done:
 		case <-time.After(2 * time.Second):
-			w.cmd.Process.Kill()
+			cmd.Process.Kill()
+			<-done
 		}
+		w.cmd = nil
 	}
 }
 
@@ -172,7 +285,13 @@ func (w *Worker) Do(op string, args map[string]string, timeout time.Duration) wR
 	w.mu.Lock()
 	defer w.mu.Unlock()
 	w.n++
-	req := wReq{ID: w.n, Op: op, Args: args}
+	req := wReq{ID: w.n, Op: op, Args: args, Tmo: timeout.Milliseconds()}
+	if w.MaxTimeouts > 0 && w.timeouts >= w.MaxTimeouts {
+		return wRes{ID: req.ID, Class: "not-run"}
+	}
+	if w.cmd == nil { // closed, or not started again after the last timeout
+		w.start()
+	}
 	b, _ := json.Marshal(req)
 	type rr struct {
 		line []byte
@@ -180,14 +299,17 @@ func (w *Worker) Do(op string, args map[string]string, timeout time.Duration) wR
 	}
 	ch := make(chan rr, 1)
 	t0 := time.Now()
+	in, out := w.in, w.out
 	go func() {
-		if _, err := w.in.Write(append(b, '\n')); err != nil {
+		if _, err := in.Write(append(b, '\n')); err != nil {
 			ch <- rr{nil, err}
 			return
 		}
-		line, err := w.out.ReadBytes('\n')
+		line, err := out.ReadBytes('\n')
 		ch <- rr{line, err}
 	}()
+	timer := time.NewTimer(timeout)
+	defer timer.Stop()
 	select {
 	case r := <-ch:
 		if r.err == nil {
@@ -197,7 +319,8 @@ func (w *Worker) Do(op string, args map[string]string, timeout time.Duration) wR
 			}
 		}
 		// the worker died while running this operation
-		w.cmd.Wait()
+		w.cmd.Process.Kill() // (a no-op when it is dead already; never wait for a live one)
+		w.reap()
 		w.stderr.mu.Lock()
 		oom, crash, first := w.stderr.oom, w.stderr.crash, w.stderr.first
 		w.stderr.mu.Unlock()
@@ -212,10 +335,15 @@ func (w *Worker) Do(op string, args map[string]string, timeout time.Duration) wR
 		}
 		w.start()
 		return res
-	case <-time.After(timeout):
+	case <-timer.C:
 		w.cmd.Process.Kill()
-		w.cmd.Wait()
-		w.start()
+		w.reap()
+		w.in.Close()
+		w.cmd, w.in = nil, nil
+		w.timeouts++
+		if !(w.MaxTimeouts > 0 && w.timeouts >= w.MaxTimeouts) {
+			w.start()
+		}
 		return wRes{ID: req.ID, Class: "timeout", Ms: time.Since(t0).Milliseconds()}
 	}
 }
